@@ -27,7 +27,8 @@ pub struct Plan {
 #[derive(Clone, Debug)]
 enum Res {
     Push(f64),
-    Drain { values: Vec<f64>, rate: f64, len_hint: usize },
+    /// `cstart`: the step at which the drain closure was entered (the side swap is behind it)
+    Drain { values: Vec<f64>, rate: f64, len_hint: usize, cstart: u64 },
     Empty(bool),
 }
 
@@ -54,14 +55,17 @@ fn do_op(res: &AtomicSamplingReservoir, op: &Op, tid: u32, seq: &mut u32) -> Res
             let mut values = vec![];
             let mut rate = 0.0;
             let mut len_hint = 0;
+            let mut cstart = 0;
             res.consume(|d| {
+                cstart = dsim::step();
+                dsim::point("c16.in_closure");
                 rate = d.sample_rate();
                 len_hint = d.len();
                 for v in d {
                     values.push(v);
                 }
             });
-            Res::Drain { values, rate, len_hint }
+            Res::Drain { values, rate, len_hint, cstart }
         }
         Op::IsEmpty => Res::Empty(res.is_empty()),
     }
@@ -226,7 +230,7 @@ fn check(plan: &Plan, h: &[Ev]) -> Option<Violation> {
                     return violation("is-empty-wrong", format!("is_empty() = {} with {} values pushed since the last drain", b, pending.len()));
                 }
             }
-            Res::Drain { values, rate, len_hint } => {
+            Res::Drain { values, rate, len_hint, .. } => {
                 if values.len() > cap {
                     return violation("over-capacity", format!("drain yielded {} values, capacity {}", values.len(), cap));
                 }
@@ -262,11 +266,19 @@ fn check(plan: &Plan, h: &[Ev]) -> Option<Violation> {
     let mut prev_drain_inv: u64 = drains.iter().filter(|d| d.phase == 0).map(|d| d.inv).max().unwrap_or(0);
     let mut all_conc_yield: Vec<u64> = vec![];
     let conc_drains: Vec<&&Ev> = conc.iter().filter(|e| matches!(e.res, Res::Drain { .. })).collect();
-    let all_drains: Vec<(u64, u64)> = h.iter().filter(|e| matches!(e.res, Res::Drain { .. })).map(|e| (e.inv, e.ret)).collect();
-    let overlaps_any_drain = |pe: &Ev| all_drains.iter().any(|(i, r)| pe.inv < *r && pe.ret > *i);
-    let some_push_overlaps = |d: &Ev| h.iter().any(|e| matches!(e.res, Res::Push(_)) && e.inv < d.ret && e.ret > d.inv);
+    // Structural signature of the known defect (push || consume): a *culprit* push is one that may
+    // have read which side is active before some drain swapped the sides and that finished after
+    // that drain began (invoked before the drain's closure was entered, returned after the drain
+    // was invoked). Such a push can be lost, surface late, leave a never-written slot behind, or
+    // overwrite the slot of another push it overlaps. A push invoked after the closure was entered
+    // goes to the other side and is safe in the shipped algorithm, unless a culprit overlaps it.
+    let all_drains: Vec<(u64, u64, u64)> = h.iter().filter_map(|e| if let Res::Drain { cstart, .. } = &e.res { Some((e.inv, if *cstart == 0 { e.ret } else { *cstart }, e.ret)) } else { None }).collect();
+    let culprit = |q: &Ev| matches!(q.res, Res::Push(_)) && all_drains.iter().any(|(i, c, _)| q.inv < *c && q.ret > *i);
+    let any_culprit = h.iter().any(|q| culprit(q));
+    let overlaps_any_drain = |pe: &Ev| culprit(pe) || h.iter().any(|q| culprit(q) && q.inv < pe.ret && q.ret > pe.inv);
+    let some_push_overlaps = |_d: &Ev| any_culprit;
     for d in &conc_drains {
-        if let Res::Drain { values, rate, len_hint } = &d.res {
+        if let Res::Drain { values, rate, len_hint, .. } = &d.res {
             if values.len() > cap {
                 return violation("over-capacity", format!("drain yielded {} values, capacity {}", values.len(), cap));
             }
